@@ -1,18 +1,682 @@
-//! C04 — (stub, under construction)
+//! C04 — glyph substitution follows OpenType GSUB lookup semantics.
+//!
+//! A case = one generated lookup program (GDEF + GSUB [+ FeatureVariations/fvar], written by the
+//! independent writer in `gen::layout_c04` into a minimal sfnt) x a few input glyph strings x
+//! feature selections, driven through allsorts four ways (Font::shape / gsub::apply x
+//! Features::Custom / Features::Mask, Default-type scripts). The oracle is the reference
+//! interpreter `model::gsub_c04` evaluated on the AST; glyph ids and per-glyph `unicodes` are
+//! compared strictly.
+//!
+//! Verdicts are only drawn from *core* programs (the unambiguous part of GSUB, see DESIGN §4 C04)
+//! on which the interpreter met no ambiguity; everything else (wide mode, or a core program that
+//! ran into a corner where engine designs legitimately differ) is counted in classes
+//! `wide:*` / `core:ambiguous:*` and never becomes a violation.
 
 use super::Prop;
+use crate::gen::layout_c04::*;
+use crate::model::gsub_c04 as model;
+use crate::model::gsub_c04::{MGlyph, Selection};
 use crate::rt::*;
+use crate::sfnt::cmap as icmap;
+use allsorts::binary::read::ReadScope;
+use allsorts::font::MatchingPresentation;
+use allsorts::font_data::FontData;
+use allsorts::gsub::{self, FeatureInfo, FeatureMask, Features, GlyphOrigin, RawGlyph, RawGlyphFlags};
+use allsorts::layout::{new_layout_cache, GDEFTable, LayoutTable, GSUB};
+use allsorts::tables::variable_fonts::fvar::FvarTable;
+use allsorts::tables::F2Dot14;
+use allsorts::tinyvec::tiny_vec;
+use allsorts::Font;
+use std::panic::{self, AssertUnwindSafe};
 
-pub struct C04 {}
+#[path = "c04_gen.rs"]
+mod g4;
+use g4::{tag, GenOut};
+
+pub struct C04 {
+    /// non-trivial hashes recorded so far (capped: the supervisor merges them in memory)
+    recorded: usize,
+    /// failures of the interpreter's hand-computed unit vectors (must be empty)
+    model_failures: Vec<String>,
+}
 
 impl C04 {
     pub fn new(_cx: &mut Ctx) -> C04 {
-        C04 {}
+        let model_failures = model::unit_vectors();
+        for f in &model_failures {
+            eprintln!("C04 MODEL SELF-TEST FAILED: {}", f);
+        }
+        C04 { recorded: 0, model_failures }
+    }
+}
+
+fn mask_of(t: u32) -> Option<FeatureMask> {
+    let s = t.to_be_bytes();
+    Some(match &s {
+        b"liga" => FeatureMask::LIGA,
+        b"ccmp" => FeatureMask::CCMP,
+        b"calt" => FeatureMask::CALT,
+        b"clig" => FeatureMask::CLIG,
+        b"rlig" => FeatureMask::RLIG,
+        b"locl" => FeatureMask::LOCL,
+        b"dlig" => FeatureMask::DLIG,
+        b"smcp" => FeatureMask::SMCP,
+        b"c2sc" => FeatureMask::C2SC,
+        b"init" => FeatureMask::INIT,
+        b"medi" => FeatureMask::MEDI,
+        b"isol" => FeatureMask::ISOL,
+        b"lnum" => FeatureMask::LNUM,
+        b"onum" => FeatureMask::ONUM,
+        b"pres" => FeatureMask::PRES,
+        b"psts" => FeatureMask::PSTS,
+        b"rclt" => FeatureMask::RCLT,
+        b"hlig" => FeatureMask::HLIG,
+        b"zero" => FeatureMask::ZERO,
+        b"tnum" => FeatureMask::TNUM,
+        b"fina" => FeatureMask::FINA,
+        b"rvrn" => FeatureMask::RVRN,
+        b"vert" | b"vrt2" => FeatureMask::VRT2_OR_VERT,
+        b"frac" => FeatureMask::FRAC,
+        _ => return None,
+    })
+}
+
+fn tag_str(t: u32) -> String {
+    t.to_be_bytes().iter().map(|&b| if (0x20..0x7F).contains(&b) { b as char } else { '?' }).collect()
+}
+
+type Obs = Vec<(u16, Vec<char>)>;
+
+#[derive(Clone, Copy, PartialEq, Debug)]
+enum Path {
+    ShapeCustom,
+    ShapeMask,
+    ApplyCustom,
+    ApplyMask,
+}
+
+impl Path {
+    fn name(self) -> &'static str {
+        match self {
+            Path::ShapeCustom => "shape-custom",
+            Path::ShapeMask => "shape-mask",
+            Path::ApplyCustom => "apply-custom",
+            Path::ApplyMask => "apply-mask",
+        }
+    }
+    fn is_mask(self) -> bool {
+        matches!(self, Path::ShapeMask | Path::ApplyMask)
+    }
+    fn is_shape(self) -> bool {
+        matches!(self, Path::ShapeCustom | Path::ShapeMask)
+    }
+}
+
+#[derive(Clone, Debug)]
+struct Sel {
+    script: u32,
+    lang: Option<u32>,
+    /// tags requested through Features::Custom, with optional alternate index
+    custom: Vec<(u32, Option<usize>)>,
+    /// tags requested through Features::Mask
+    mask: Vec<u32>,
+    tuple: Option<Vec<i16>>,
+}
+
+impl Sel {
+    fn tags(&self, path: Path) -> Vec<u32> {
+        if path.is_mask() {
+            self.mask.clone()
+        } else {
+            self.custom.iter().map(|x| x.0).collect()
+        }
+    }
+    fn alternates(&self, path: Path) -> Vec<(u32, usize)> {
+        if path.is_mask() {
+            Vec::new()
+        } else {
+            self.custom.iter().filter_map(|&(t, a)| a.map(|a| (t, a))).collect()
+        }
+    }
+    fn features(&self, path: Path) -> Features {
+        if path.is_mask() {
+            let mut m = FeatureMask::empty();
+            for &t in &self.mask {
+                if let Some(b) = mask_of(t) {
+                    m |= b;
+                }
+            }
+            Features::Mask(m)
+        } else {
+            Features::Custom(self.custom.iter().map(|&(t, a)| FeatureInfo { feature_tag: t, alternate: a }).collect())
+        }
+    }
+    fn json(&self) -> J {
+        J::obj(vec![
+            ("script", J::s(tag_str(self.script))),
+            ("lang", self.lang.map_or(J::Null, |l| J::s(tag_str(l)))),
+            ("custom", J::A(self.custom.iter().map(|(t, a)| J::s(format!("{}{}", tag_str(*t), a.map_or(String::new(), |a| format!("#{}", a))))).collect())),
+            ("mask", J::A(self.mask.iter().map(|t| J::s(tag_str(*t))).collect())),
+            ("tuple", self.tuple.as_ref().map_or(J::Null, |t| J::A(t.iter().map(|&v| J::I(v as i64)).collect()))),
+        ])
+    }
+}
+
+fn obs_json(o: &Obs) -> J {
+    J::A(o.iter().map(|(g, c)| J::s(format!("{}:{}", g, c.iter().map(|ch| format!("{:04X}", *ch as u32)).collect::<Vec<_>>().join("+")))).collect())
+}
+
+fn raw_glyph(ch: char, gid: u16) -> RawGlyph<()> {
+    RawGlyph {
+        unicodes: tiny_vec![[char; 1] => ch],
+        glyph_index: gid,
+        liga_component_pos: 0,
+        glyph_origin: GlyphOrigin::Char(ch),
+        flags: RawGlyphFlags::empty(),
+        extra_data: (),
+        variation: None,
+    }
+}
+
+struct Observed {
+    obs: Obs,
+    any_lig_flag: bool,
+    any_dup_flag: bool,
+}
+
+/// Drive allsorts. Err(String) = allsorts returned an error (or the font could not be loaded).
+fn observe(built: &Built, prog: &Program, path: Path, sel: &Sel, input: &[MGlyph]) -> Result<Observed, String> {
+    let feats = sel.features(path);
+    // tuple
+    let fvar;
+    let owned;
+    let tuple = match (&sel.tuple, &built.fvar) {
+        (Some(t), Some(fb)) => {
+            fvar = ReadScope::new(fb).read::<FvarTable<'_>>().map_err(|e| format!("harness:fvar {:?}", e))?;
+            let vals: Vec<F2Dot14> = t.iter().map(|&v| F2Dot14::from_raw(v)).collect();
+            owned = fvar.owned_tuple(&vals).ok_or_else(|| "harness:tuple-length".to_string())?;
+            Some(owned.as_tuple())
+        }
+        _ => None,
+    };
+    let collect = |gs: Vec<RawGlyph<()>>| -> Observed {
+        let mut o = Observed { obs: Vec::with_capacity(gs.len()), any_lig_flag: false, any_dup_flag: false };
+        for g in gs {
+            o.any_lig_flag |= g.ligature();
+            o.any_dup_flag |= g.multi_subst_dup();
+            o.obs.push((g.glyph_index, g.unicodes.iter().copied().collect()));
+        }
+        o
+    };
+    if path.is_shape() {
+        let fd = ReadScope::new(&built.font).read::<FontData<'_>>().map_err(|e| format!("harness:fontdata {:?}", e))?;
+        let provider = fd.table_provider(0).map_err(|e| format!("harness:provider {:?}", e))?;
+        let mut font = Font::new(provider).map_err(|e| format!("harness:font-new {:?}", e))?;
+        let text: String = input.iter().map(|g| g.chars[0]).collect();
+        let glyphs = font.map_glyphs(&text, sel.script, MatchingPresentation::NotRequired);
+        if glyphs.len() != input.len() || glyphs.iter().zip(input).any(|(a, b)| a.glyph_index != b.gid) {
+            return Err("harness:map-glyphs-differs".to_string());
+        }
+        match font.shape(glyphs, sel.script, sel.lang, &feats, tuple, false) {
+            Ok(infos) => Ok(collect(infos.into_iter().map(|i| i.glyph).collect())),
+            Err((e, _)) => Err(format!("{:?}", e)),
+        }
+    } else {
+        let table = ReadScope::new(&built.gsub).read::<LayoutTable<GSUB>>().map_err(|e| format!("gsub-table {:?}", e))?;
+        let cache = new_layout_cache(table);
+        let gdef = match &built.gdef {
+            Some(b) => Some(ReadScope::new(b).read::<GDEFTable>().map_err(|e| format!("gdef-table {:?}", e))?),
+            None => None,
+        };
+        let mut glyphs: Vec<RawGlyph<()>> = input.iter().map(|g| raw_glyph(g.chars[0], g.gid)).collect();
+        match gsub::apply(0, &cache, gdef.as_ref(), sel.script, sel.lang, &feats, tuple, prog.num_glyphs, &mut glyphs) {
+            Ok(()) => Ok(collect(glyphs)),
+            Err(e) => Err(format!("{:?}", e)),
+        }
+    }
+}
+
+fn expect(prog: &Program, path: Path, sel: &Sel, input: &[MGlyph]) -> model::Outcome {
+    let tags = sel.tags(path);
+    let alts = sel.alternates(path);
+    let s = Selection { script: sel.script, lang: sel.lang, tags: &tags, alternates: &alts, tuple: sel.tuple.as_deref() };
+    model::run(prog, &s, input)
+}
+
+fn to_obs(g: &[MGlyph]) -> Obs {
+    g.iter().map(|x| (x.gid, x.chars.clone())).collect()
+}
+
+fn diff_kind(exp: &Obs, got: &Obs) -> &'static str {
+    if exp.len() != got.len() {
+        "length"
+    } else if exp.iter().zip(got).any(|(a, b)| a.0 != b.0) {
+        "glyph"
+    } else {
+        "chars"
+    }
+}
+
+fn lookup_desc(prog: &Program, li: usize, depth: usize) -> String {
+    let lk = match prog.gsub.lookups.get(li) {
+        Some(l) => l,
+        None => return "invalid".to_string(),
+    };
+    let mut names: Vec<&str> = lk.subs.iter().map(|s| s.name()).collect();
+    names.sort_unstable();
+    names.dedup();
+    let mut s = names.join("+");
+    if depth < 2 {
+        let mut nested: Vec<String> = lk.subs.iter().flat_map(|s| s.records()).map(|(_, l)| lookup_desc(prog, l as usize, depth + 1)).collect();
+        nested.sort();
+        nested.dedup();
+        if !nested.is_empty() {
+            s.push_str(&format!(">[{}]", nested.join(",")));
+        }
+    }
+    s
+}
+
+/// Static upper bound on how much one pass of lookup `li` can lengthen the run (factor per glyph).
+fn growth_factor(prog: &Program, li: usize, depth: usize) -> f64 {
+    let lk = match prog.gsub.lookups.get(li) {
+        Some(l) => l,
+        None => return 1.0,
+    };
+    let mut f: f64 = 1.0;
+    for s in &lk.subs {
+        match s {
+            Sub::Multiple { seqs, .. } => {
+                for q in seqs {
+                    f = f.max(q.len() as f64);
+                }
+            }
+            Sub::Ctx1 { sets, .. } | Sub::Ctx2 { sets, .. } | Sub::Chain1 { sets, .. } | Sub::Chain2 { sets, .. } if depth < 4 => {
+                for r in sets.iter().flatten().flatten() {
+                    let g: f64 = r.recs.iter().map(|&(_, l)| (growth_factor(prog, l as usize, depth + 1) - 1.0).max(0.0)).sum();
+                    f = f.max(1.0 + g);
+                }
+            }
+            Sub::Ctx3 { recs, .. } | Sub::Chain3 { recs, .. } if depth < 4 => {
+                let g: f64 = recs.iter().map(|&(_, l)| (growth_factor(prog, l as usize, depth + 1) - 1.0).max(0.0)).sum();
+                f = f.max(1.0 + g);
+            }
+            _ => {}
+        }
+    }
+    f
+}
+
+/// Bound on the run length any engine can reach on this program from `len` glyphs.
+fn growth_bound(prog: &Program, len: usize) -> f64 {
+    let mut used: Vec<u16> = prog.gsub.features.iter().flat_map(|f| f.lookups.iter().copied()).collect();
+    for r in prog.gsub.fv.iter().flatten() {
+        used.extend(r.substs.iter().flat_map(|s| s.1.iter().copied()));
+    }
+    used.sort_unstable();
+    used.dedup();
+    let mut b = len.max(1) as f64;
+    for l in used {
+        b *= growth_factor(prog, l as usize, 0);
+    }
+    b
+}
+
+fn restrict(prog: &Program, max_lookup: u16) -> Program {
+    let mut p = prog.clone();
+    for f in p.gsub.features.iter_mut() {
+        f.lookups.retain(|&l| l <= max_lookup);
+    }
+    if let Some(fv) = p.gsub.fv.as_mut() {
+        for r in fv.iter_mut() {
+            for s in r.substs.iter_mut() {
+                s.1.retain(|&l| l <= max_lookup);
+            }
+        }
+    }
+    p
+}
+
+fn build(prog: &mut Program, cmap_table: &[u8], cx: &mut Ctx) -> Option<Built> {
+    for attempt in 0..3 {
+        match prog.build(cmap_table.to_vec()) {
+            Ok(b) => return Some(b),
+            Err(Overflow(what)) => {
+                cx.class(&format!("writer:overflow:{}", what));
+                for l in prog.gsub.lookups.iter_mut() {
+                    l.ext = true;
+                    if attempt > 0 {
+                        l.pad = 0;
+                    }
+                }
+                cx.class("writer:promoted-to-extension");
+            }
+        }
+    }
+    None
+}
+
+impl C04 {
+    fn gen_sel(rng: &mut Rng, go: &GenOut, core: bool, tuple: Option<Vec<i16>>) -> Sel {
+        let p = &go.prog;
+        let mut scripts: Vec<u32> = p.gsub.scripts.iter().map(|s| s.tag).collect();
+        scripts.extend([tag("latn"), tag("DFLT"), tag("zzzz")]);
+        let script = *rng.pick(&scripts);
+        let mut langs: Vec<Option<u32>> = vec![None, None, Some(tag("XXX "))];
+        for s in &p.gsub.scripts {
+            for (t, _) in &s.langs {
+                langs.push(Some(*t));
+                langs.push(Some(*t));
+            }
+        }
+        let lang = *rng.pick(&langs);
+        let mut all: Vec<u32> = p.gsub.features.iter().map(|f| f.tag).collect();
+        all.sort_unstable();
+        all.dedup();
+        let keep = *rng.pick(&[1u32, 2, 3, 3, 4]);
+        let mut chosen: Vec<u32> = all.iter().copied().filter(|_| rng.chance(keep, 4)).collect();
+        if rng.chance(1, 3) {
+            chosen.push(tag(*rng.pick(g4::CORE_MASK_TAGS)));
+        }
+        chosen.sort_unstable();
+        chosen.dedup();
+        rng.shuffle(&mut chosen);
+        let custom: Vec<(u32, Option<usize>)> = chosen.iter().map(|&t| (t, if !core && rng.chance(1, 6) { Some(rng.below(3)) } else { None })).collect();
+        let mask: Vec<u32> = chosen.iter().copied().filter(|&t| mask_of(t).is_some()).collect();
+        Sel { script, lang, custom, mask, tuple }
+    }
+
+    fn gen_tuple(rng: &mut Rng, p: &Program) -> Vec<i16> {
+        let mut edges: Vec<(u16, i16)> = Vec::new();
+        for r in p.gsub.fv.iter().flatten() {
+            for c in r.conds.iter().flatten() {
+                edges.push((c.axis, c.min));
+                edges.push((c.axis, c.max));
+                edges.push((c.axis, c.min.saturating_sub(1)));
+                edges.push((c.axis, c.max.saturating_add(1)));
+                edges.push((c.axis, ((c.min as i32 + c.max as i32) / 2) as i16));
+            }
+        }
+        (0..p.axes)
+            .map(|a| {
+                let mine: Vec<i16> = edges.iter().filter(|e| e.0 as usize == a).map(|e| e.1).collect();
+                if !mine.is_empty() && rng.chance(3, 4) {
+                    *rng.pick(&mine)
+                } else {
+                    rng.range(-16384, 16384) as i16
+                }
+            })
+            .collect()
+    }
+
+    fn witness_json(prog: &Program, sel: &Sel, path: Path, input: &[MGlyph], exp: &Obs, got: Result<&Obs, &str>, culprit: Option<u16>, out: &model::Outcome) -> J {
+        let gdef_of = |g: u16| -> String {
+            match &prog.gdef {
+                Some(d) => format!("{}:c{}a{}s{}", g, d.glyph_class(g), d.attach_class(g), d.mark_sets.iter().enumerate().filter(|(_, c)| c.contains(g)).map(|(i, _)| i.to_string()).collect::<Vec<_>>().join("")),
+                None => format!("{}:nogdef", g),
+            }
+        };
+        let mut involved: Vec<u16> = input.iter().map(|g| g.gid).chain(exp.iter().map(|g| g.0)).collect();
+        involved.sort_unstable();
+        involved.dedup();
+        let lookups: Vec<J> = match culprit {
+            Some(c) => {
+                let mut v = vec![c];
+                let mut k = 0;
+                while k < v.len() && v.len() < 8 {
+                    if let Some(l) = prog.gsub.lookups.get(v[k] as usize) {
+                        for s in &l.subs {
+                            for (_, n) in s.records() {
+                                if !v.contains(&n) {
+                                    v.push(n);
+                                }
+                            }
+                        }
+                    }
+                    k += 1;
+                }
+                v.iter().map(|&l| J::s(format!("#{} {:?}", l, prog.gsub.lookups.get(l as usize)))).collect()
+            }
+            None => Vec::new(),
+        };
+        J::obj(vec![
+            ("path", J::s(path.name())),
+            ("selection", sel.json()),
+            ("input", obs_json(&to_obs(input))),
+            ("expected", obs_json(exp)),
+            ("observed", match got {
+                Ok(o) => obs_json(o),
+                Err(e) => J::s(format!("error: {}", e)),
+            }),
+            ("lookups_selected", J::A(out.selected.iter().map(|&l| J::U(l as u64)).collect())),
+            ("lookups_that_changed_the_run", J::A(out.changed_by.iter().map(|&l| J::U(l as u64)).collect())),
+            ("culprit_lookup", culprit.map_or(J::Null, |c| J::U(c as u64))),
+            ("culprit_and_nested", J::A(lookups)),
+            ("glyph_kinds(gid:class,attach,sets)", J::A(involved.iter().map(|&g| J::s(gdef_of(g))).collect())),
+            ("num_glyphs", J::U(prog.num_glyphs as u64)),
+        ])
+    }
+
+    /// Smallest k such that the program restricted to lookups <= k already disagrees.
+    fn localize(prog: &Program, cmap_table: &[u8], path: Path, sel: &Sel, input: &[MGlyph], selected: &[u16]) -> Option<u16> {
+        for &k in selected {
+            let p = restrict(prog, k);
+            let b = match p.build(cmap_table.to_vec()) {
+                Ok(b) => b,
+                Err(_) => return None,
+            };
+            let exp = expect(&p, path, sel, input);
+            let got = panic::catch_unwind(AssertUnwindSafe(|| observe(&b, &p, path, sel, input)));
+            match got {
+                Ok(Ok(o)) => {
+                    if o.obs != to_obs(&exp.glyphs) {
+                        return Some(k);
+                    }
+                }
+                _ => return Some(k),
+            }
+        }
+        None
     }
 }
 
 impl Prop for C04 {
-    fn case(&mut self, cx: &mut Ctx, _rng: &mut Rng) {
-        cx.inconclusive("not-implemented");
+    fn case(&mut self, cx: &mut Ctx, rng: &mut Rng) {
+        if !self.model_failures.is_empty() {
+            cx.inconclusive("model-selftest-failed");
+            return;
+        }
+        let wide = match cx.mode.as_str() {
+            "wide" => true,
+            "core" => false,
+            _ => rng.chance(1, 6),
+        };
+        let core = !wide;
+        let mut go = g4::gen_program(rng, core);
+        let l4 = icmap::Layout4::choose(&go.prog.cmap, rng);
+        let cmap_table = icmap::write_cmap(&[icmap::Record { platform: 3, encoding: 1, subtable: 0 }], &[l4.write(0)]);
+        let built = match build(&mut go.prog, &cmap_table, cx) {
+            Some(b) => b,
+            None => {
+                cx.inconclusive("generator:overflow");
+                return;
+            }
+        };
+        cx.class(if core { "program:core" } else { "program:wide" });
+        let prog = &go.prog;
+        let prog_hash = hash_bytes(&built.gsub) ^ built.gdef.as_ref().map_or(0, |g| hash_bytes(g));
+        // inverse cmap: glyph -> characters
+        let chars_of = |g: u16| -> Vec<char> { prog.cmap.iter().filter(|(_, &v)| v == g).filter_map(|(&c, _)| char::from_u32(c)).collect() };
+        let ntuples = if prog.axes > 0 { rng.urange(1, 2) } else { 1 };
+        let nstrings = if cx.quick() { rng.urange(2, 4) } else { rng.urange(3, 6) };
+        let mut reported = false;
+        for _ in 0..ntuples {
+            let tuple = if prog.axes > 0 && (core || rng.chance(9, 10)) { Some(Self::gen_tuple(rng, prog)) } else { None };
+            for _ in 0..nstrings {
+                let sel = Self::gen_sel(rng, &go, core, tuple.clone());
+                // lookups the selection enables (to aim the string generator)
+                let tags_c = sel.tags(Path::ApplyCustom);
+                let res = model::resolve(&prog.gsub, &Selection { script: sel.script, lang: sel.lang, tags: &tags_c, alternates: &[], tuple: sel.tuple.as_deref() });
+                let selected: Vec<u16> = res.lookups.iter().map(|x| x.0).collect();
+                let gids = g4::gen_string(rng, &go, &selected);
+                let zwj_at = if !core && !gids.is_empty() && rng.chance(1, 10) { Some(rng.below(gids.len())) } else { None };
+                for &path in &[Path::ApplyCustom, Path::ApplyMask, Path::ShapeCustom, Path::ShapeMask] {
+                    // input glyphs with characters: unique private-use characters on the direct
+                    // path (strict test of character bookkeeping), cmap characters on the shape path
+                    let mut input: Vec<MGlyph> = Vec::with_capacity(gids.len());
+                    let mut usable = true;
+                    for (k, &g) in gids.iter().enumerate() {
+                        let ch = if path.is_shape() {
+                            if g == 0 {
+                                '\u{2FF}' // unmapped -> glyph 0
+                            } else {
+                                let cs = chars_of(g);
+                                if cs.is_empty() {
+                                    usable = false;
+                                    break;
+                                }
+                                cs[(k + g as usize) % cs.len()]
+                            }
+                        } else if zwj_at == Some(k) {
+                            '\u{200D}'
+                        } else {
+                            char::from_u32(0xE000 + k as u32).unwrap_or('\u{E000}')
+                        };
+                        input.push(MGlyph { gid: g, chars: vec![ch] });
+                    }
+                    if !usable {
+                        continue;
+                    }
+                    let out = expect(prog, path, &sel, &input);
+                    let exp = to_obs(&out.glyphs);
+                    let strict = core && out.ambiguous.is_empty();
+                    cx.evals += 0;
+                    if out.ambiguous.contains("runaway-program") || (!strict && growth_bound(prog, input.len()) > 30_000.0) {
+                        // a program that can blow the run up is C02's business (time/memory
+                        // monitors); here it would only make the worker slow
+                        cx.class("skipped:run-may-explode");
+                        continue;
+                    }
+                    let got = if strict {
+                        match cx.guard(path.name(), built.font.len(), || observe(&built, prog, path, &sel, &input)) {
+                            Some(r) => r,
+                            None => return, // panic recorded as violation by guard
+                        }
+                    } else {
+                        match panic::catch_unwind(AssertUnwindSafe(|| observe(&built, prog, path, &sel, &input))) {
+                            Ok(r) => r,
+                            Err(_) => {
+                                let p = take_last_panic().unwrap_or_default();
+                                if is_harness_panic(&p) {
+                                    cx.inconclusive("harness-panic");
+                                    eprintln!("HARNESS-PANIC C04 case {:016x}: {} at {}", cx.case_seed, p.message, p.location);
+                                    return;
+                                }
+                                cx.class(&format!("wide:panic:{}", panic_sig(&p)));
+                                continue;
+                            }
+                        }
+                    };
+                    if let Err(e) = &got {
+                        if e.starts_with("harness:") {
+                            cx.inconclusive(e);
+                            continue;
+                        }
+                    }
+                    let agree = matches!(&got, Ok(o) if o.obs == exp);
+                    if !strict {
+                        let why = if core { format!("core:ambiguous:{}", out.ambiguous.iter().next().copied().unwrap_or("?")) } else { "wide".to_string() };
+                        if core {
+                            cx.class(&why);
+                        }
+                        if agree {
+                            cx.class("wide:agree");
+                        } else {
+                            let first = out.ambiguous.iter().next().copied().unwrap_or("unrestricted-program");
+                            match &got {
+                                Ok(_) => cx.class(&format!("wide:disagree:{}", first)),
+                                Err(e) => cx.class(&format!("wide:disagree:error:{}", normalise_digits(e))),
+                            }
+                        }
+                        continue;
+                    }
+                    cx.class(&format!("judged:{}", path.name()));
+                    if agree {
+                        let changed = !out.changed_by.is_empty();
+                        if changed {
+                            cx.class("judged:run-changed");
+                            let mut h = prog_hash;
+                            for g in &gids {
+                                h = mix(h, *g as u64);
+                            }
+                            for t in sel.tags(path) {
+                                h = mix(h, t as u64);
+                            }
+                            // one hash per (program, string, selection); paths share it
+                            let cap = if cx.quick() { 40_000 } else { 100_000 };
+                            if self.recorded < cap {
+                                let before = cx.nontrivial.len();
+                                cx.nontrivial(h);
+                                self.recorded += cx.nontrivial.len() - before;
+                            } else {
+                                cx.class("nontrivial-beyond-hash-cap");
+                            }
+                            for c in &out.classes {
+                                cx.class(c);
+                            }
+                            if out.changed_by.len() > 1 {
+                                cx.class("several-lookups-changed-run");
+                            }
+                            if let Ok(o) = &got {
+                                if o.any_lig_flag {
+                                    cx.class("obs:ligature-flag-set");
+                                }
+                                if o.any_dup_flag {
+                                    cx.class("obs:multi-subst-dup-flag-set");
+                                }
+                                if o.obs.iter().any(|g| g.1.len() > 1) {
+                                    cx.class("obs:glyph-with-several-characters");
+                                }
+                            }
+                            if cx.want_sample() && out.changed_by.len() > 1 {
+                                cx.sample(J::obj(vec![
+                                    ("path", J::s(path.name())),
+                                    ("selection", sel.json()),
+                                    ("input", obs_json(&to_obs(&input))),
+                                    ("output", obs_json(&exp)),
+                                    ("lookups_applied", J::A(out.changed_by.iter().map(|&l| J::s(format!("#{} {} flags={}", l, lookup_desc(prog, l as usize, 0), model::flag_name(prog.gsub.lookups[l as usize].flag)))).collect())),
+                                    ("events", J::A(out.classes.iter().map(|c| J::s(c.clone())).collect())),
+                                ]));
+                            }
+                        } else {
+                            cx.class("judged:run-unchanged");
+                        }
+                        continue;
+                    }
+                    // disagreement on a core program without ambiguity
+                    if reported {
+                        continue;
+                    }
+                    reported = true;
+                    let culprit = Self::localize(prog, &cmap_table, path, &sel, &input, &out.selected);
+                    let (cdesc, cflags) = match culprit {
+                        Some(c) => (lookup_desc(prog, c as usize, 0), model::flag_name(prog.gsub.lookups[c as usize].flag)),
+                        None => ("unlocalized".to_string(), "?".to_string()),
+                    };
+                    match &got {
+                        Ok(o) => {
+                            let sig = format!("{}:{}:flags={}", diff_kind(&exp, &o.obs), cdesc, cflags);
+                            let detail = Self::witness_json(prog, &sel, path, &input, &exp, Ok(&o.obs), culprit, &out);
+                            cx.violation("gsub-output", &sig, detail);
+                        }
+                        Err(e) => {
+                            let sig = format!("{}:{}:flags={}", normalise_digits(e), cdesc, cflags);
+                            let detail = Self::witness_json(prog, &sel, path, &input, &exp, Err(e), culprit, &out);
+                            cx.violation("gsub-error", &sig, detail);
+                        }
+                    }
+                }
+            }
+        }
     }
 }
